@@ -248,6 +248,31 @@ def run_unrepresentable(ctx):
         except Exception:  # noqa: BLE001
             pass
         ctx.evaluations += 1
+    # the constructor's accept / refuse decision and the stored key against the model's storeKey (store_roundtrip,
+    # store_rejects_out_of_range), on exponent rows around every boundary
+    rows = [[e] for e in (0, 58, 59, 55236, 55237, 57284, 57285, 1114052, 1114053, 2 ** 31, 2 ** 32 - 60, 2 ** 32 - 59, 2 ** 32 - 1, 2 ** 32,
+                          2 ** 32 + 5, 2 ** 40, 2 ** 62, -1, -59, -60)] + [[3, 2 ** 32 + 1], [2 ** 40, 1], [1114052, 0], [0, 1114053], [-1, 5]]
+    answers = run_driver([{"id": i, "op": "storekey", "e": r} for i, r in enumerate(rows)])
+    for r, ans in zip(rows, answers):
+        ctx.evaluations += 1
+        ctx.count("storekey-vs-model")
+        case = {"kind": "overflow", "a": r[0], "b": 0, "op": "construct", "route": "model storeKey", "row": r}
+        try:
+            p = numpoly.polynomial_from_attributes(numpy.array([r], dtype="int64"), [2], tuple(f"q{i}" for i in range(len(r))))
+            got = [ord(c) for c in str(p.keys[0])]
+            if [int(x) for x in p.exponents[0]] != r:
+                got = ("other monomial", [int(x) for x in p.exponents[0]])
+        except Exception:  # noqa: BLE001
+            got = None
+        if any(55237 <= x <= 57284 for x in r):
+            # key code points in the surrogate block: numpy's UCS-4 strings hold them, text files cannot; the model counts them
+            # as "may be refused" (invalidKey_errors), the implementation stores them - either way never another monomial
+            ok = got is None or got == [x + 59 for x in r]
+        else:
+            ok = got == ans["value"]
+        if not ok:
+            ctx.fail(case, f"exponent row {r}: the constructor gives key {got} (None = raises), the model's storeKey {ans['value']} (before D56: {ans['old']})",
+                     ["overflow", "wrong", "construct"])
     # exponents beyond the storage type handed to the constructors: an error, never the exponent modulo 2**32 (D56)
     for e in (2 ** 32 - 1, 2 ** 32, 2 ** 32 + 5, 2 ** 33 + 7, 2 ** 40, 2 ** 62, 1114053, 2 ** 31):
         for route, build in (("from_attributes", lambda e=e: numpoly.polynomial_from_attributes([[e]], [2], ("q0",))),
